@@ -57,6 +57,7 @@ def rule_a(ctx: Context, R: Reporter, fit: FuncInfo):
     mc = mode_class(ctx)
     facs = [m for m in mc.methods.values() if m.is_classmethod]
     n_sites = 0
+    R.check("C19.a", "both factories fit through the guarded Student-t call (or delegate with the fallback passed on)", len(facs) >= 2, mc.methods["__init__"], mc.node, key="factories-present")
     for m in facs:
         flow = flow_of(m.node)
         cfg = flow.cfg
@@ -98,7 +99,7 @@ def rule_a(ctx: Context, R: Reporter, fit: FuncInfo):
                             fb_ok = (neg and is_fin) or ((not neg) and not is_fin)
                 R.check("C19.a", f"{m.short}: a non-finite dof is replaced by the caller's fallback parameter", fb_ok, m, guards[0].stmt if guards else nd.stmt,
                         msg=f"{m.short}: the non-finite branch does not assign the fallback parameter to `{dof}` (or has the wrong polarity)", key=f"dof-fallback-assign:{m.name}")
-    R.floor("C19.a", "fit call sites in the factories", n_sites, 2)
+    R.floor("C19.a", "fit call sites in the factories", n_sites, 1)
     # wiring: every internal call of a factory passes dof_fallback, tracing to the configuration constant
     T_ = Tracer(ctx)
     n_calls = 0
@@ -241,9 +242,9 @@ def rule_c(ctx: Context, R: Reporter):
 
 def run(ctx: Context, R: Reporter):
     fit = fit_fn(ctx)
-    rule_a(ctx, R, fit)
-    rule_b(ctx, R, fit)
-    rule_c(ctx, R)
+    R.guard(rule_a, ctx, R, fit)
+    R.guard(rule_b, ctx, R, fit)
+    R.guard(rule_c, ctx, R)
 
 
 def variants():
